@@ -2399,7 +2399,11 @@ func (c *Conn) handleIncomingPacket(
 	// the peer, and before that a record that does not even parse is invalid.
 	// Both are discarded silently (RFC 6347 Section 4.1.2.7), or one forged
 	// datagram would end the association.
-	unprotected := prepared.header.Epoch == 0
+	// A DTLS 1.2 ChangeCipherSpec record is passed through the cipher suite
+	// unchanged whatever epoch its header claims, so it is never authenticated
+	// either.
+	unprotected := prepared.header.Epoch == 0 ||
+		prepared.header.ContentType == protocol.ContentTypeChangeCipherSpec
 	if unprotected && dtlsstate.CommonState(c.state).RemoteEpoch() != 0 {
 		c.log.Debug("discarded unprotected record on a protected association")
 
